@@ -52,7 +52,7 @@ func (e *Engine) obligation(st *State, kind, detail, tag, text, pos string, goal
 	name := e.unitName + "/" + kind + ":" + detail
 	e.obls = append(e.obls, &Obligation{
 		Unit: e.unitName, Name: name, Kind: kind, Tag: tag, Text: text, Pos: pos,
-		PC: st.pc[:len(st.pc):len(st.pc)], Goal: goal,
+		PC: st.pc[:len(st.pc):len(st.pc)], Goal: goal, ModelTerms: e.pathModel,
 	})
 }
 
